@@ -148,7 +148,17 @@ func (dm *DagModifier) expandSparse(size int64) error {
 	// Update curNode so subsequent writes use the expanded node.
 	// Without this, writes after sparse expansion would go to the old node.
 	dm.curNode = nnode
+	dm.dropReader()
 	return nil
+}
+
+// dropReader discards the active reader, if any: it walks the DAG curNode
+// had when it was created, so it must not outlive a change of curNode.
+func (dm *DagModifier) dropReader() {
+	if dm.read != nil {
+		dm.read = nil
+		dm.readCancel()
+	}
 }
 
 // Write continues writing to the dag at the current offset
@@ -769,6 +779,7 @@ func (dm *DagModifier) Truncate(size int64) error {
 	}
 
 	dm.curNode = nnode
+	dm.dropReader()
 	return nil
 }
 
